@@ -1093,7 +1093,9 @@ def parse_multipart_form_data(
     if final_boundary_index == -1:
         raise HTTPInputError("Invalid multipart/form-data: no final boundary found")
     parts = data[:final_boundary_index].split(b"--" + boundary + b"\r\n")
-    if len(parts) > config.max_parts:
+    # The first piece is whatever precedes the first boundary (normally
+    # nothing), not a part.
+    if len(parts) - 1 > config.max_parts:
         raise HTTPInputError("multipart/form-data has too many parts")
     for part in parts:
         if not part:
